@@ -58,7 +58,7 @@ GenBefore(c, i) == Cardinality({j \in 1..(i - 1) : c.mws[j].pre # "" /\ c.mws[j]
 (* observable summary                                                      *)
 (* per message: counters + positions (in the message's own event list) of  *)
 (* the first ack / start / end / save_e, kept incrementally                *)
-MsInit == [cbB |-> 0, cbE |-> 0, cbOk |-> FALSE, st |-> 0, en |-> 0, oc |-> "none", ak |-> 0,
+MsInit == [cbB |-> 0, cbE |-> 0, cbOk |-> FALSE, st |-> 0, en |-> 0, oc |-> "none", ak |-> 0, ake |-> 0,
            iAck |-> 0, iStart |-> 0, iEnd |-> 0, sb |-> 0, se |-> 0, seOk |-> FALSE, n |-> 0]
 RxObsInit(c) ==
   [ taken |-> <<>>, arrived |-> 0, stopN |-> -1, stopT |-> -1, retT |-> -1,
@@ -76,6 +76,7 @@ MsFold(r, ev) ==
     [] ev.e = "start" -> [r1 EXCEPT !.st = @ + 1, !.iStart = IF @ = 0 THEN n1 ELSE @]
     [] ev.e = "end" -> [r1 EXCEPT !.en = @ + 1, !.iEnd = IF @ = 0 THEN n1 ELSE @, !.oc = IF r.en = 0 THEN ev.s ELSE @]
     [] ev.e = "ack" -> [r1 EXCEPT !.ak = @ + 1, !.iAck = IF @ = 0 THEN n1 ELSE @]
+    [] ev.e = "ack_e" -> [r1 EXCEPT !.ake = @ + 1]
     [] ev.e = "save_b" -> [r1 EXCEPT !.sb = @ + 1]
     [] ev.e = "save_e" -> [r1 EXCEPT !.se = @ + 1, !.seOk = (ev.s = "ok")]
     [] OTHER -> r1
@@ -290,6 +291,12 @@ Global(c, o, ev) ==
            /\ ~(c.W >= 0 /\ ShutdownT(o) >= 0 /\ o.now >= ShutdownT(o) + c.W)
         THEN {"C05_NoEarlyReturn"} ELSE {})
   \cup (IF ev.e = "ret" /\ o.nCb < Len(o.taken) THEN {"C05_Drains"} ELSE {})
+  (* "runs every message it has already taken to completion (including its acknowledgement)": a message whose processing *)
+  (* ended normally has been acknowledged, and an acknowledgement that takes time has finished, when listen() returns     *)
+  \cup (IF ev.e = "ret" /\ c.ackable /\ ~FatalHookRaises(c)
+           /\ \E m \in TakenSet(o) : IsValid(c, m) /\ ~MsgC(c, m).ackfail /\ o.ms[m].cbE > 0 /\ o.ms[m].cbOk
+                                       /\ (o.ms[m].ak = 0 \/ ((c.ackasync \/ c.ackfut) /\ o.ms[m].ake = 0))
+        THEN {"C05_Drains"} ELSE {})
   \cup (IF ev.e = "ret" /\ \E m \in TakenSet(o) : IsValid(c, m) /\ o.ms[m].cbB = 0 THEN {"C01_Lost"} ELSE {})
   \cup (IF ev.e = "eot" /\ \E m \in 1..c.M : o.ms[m].st > 0 /\ o.ms[m].en = 0 /\ c.msgs[m].timeout > 0
                                              /\ o.now > o.stT[m] + c.msgs[m].timeout
